@@ -21,6 +21,9 @@ def gen_payloads(rng, tier):
     for big in (65535, 65536, 70000, 200000):
         ps.append(b"# TABDOC: before first\n" + b"x" * big + b"\n# TABDOC: after second\n")
     ps.append(b"# TABDOC: a one\n# TABDOC: " + b"y" * 3000 + b" long\n# TABDOC: z last\n")
+    # distinct lines which differ only in where the first blank stands (name + description read the same when glued together)
+    ps += [b"# TABDOC: a bc\n# TABDOC: ab c\n", b"# TABDOC: ab c\n# TABDOC: a bc\n# TABDOC: abc\n", b"# TABDOC: cdup Goes up\n# TABDOC: cd upGoes up\n",
+           b"# TABDOC: getfile\n# TABDOC: get file\n# TABDOC: g etfile\n", b"# TABDOC: x  y\n# TABDOC: x y\n# TABDOC: xy\n"]
     n = 500 if tier == "quick" else 8000
     words = [b"f", b"g", b"longer_name", b"x", b"\xc3\xa9t\xc3\xa9", b"a'b", b"z" * 30]
     for _ in range(n):
